@@ -451,6 +451,40 @@ def run(prog: Program) -> Results:
                         f"innermost one")
             elif other:
                 res.unclass(f"_collect_scopes_from_layers: a segment that is not one scope per layer of `{lp}` ({other[0][0]}: {norm(other[0][1])[:40]})")
+    # ... and every caller hands the stored layers over in stored order: the list given to the helper is not read from its end
+    # (`reversed(x.stack)`, `x.stack[::-1]`), neither in the argument nor in the definition of a local it names
+    def _reads_backwards(e: ast.AST, fn_node: ast.AST, depth: int = 0) -> ast.AST | None:
+        for w in ast.walk(e):
+            if isinstance(w, ast.Call) and isinstance(w.func, ast.Name) and w.func.id == "reversed":
+                return w
+            if isinstance(w, ast.Subscript) and isinstance(w.slice, ast.Slice) and w.slice.step is not None \
+                    and isinstance(w.slice.step, ast.UnaryOp) and isinstance(w.slice.step.op, ast.USub):
+                return w
+        if depth < 2:
+            for nm in {x.id for x in ast.walk(e) if isinstance(x, ast.Name)}:
+                for d in ast.walk(fn_node):
+                    if isinstance(d, ast.Assign) and len(d.targets) == 1 and isinstance(d.targets[0], ast.Name) and d.targets[0].id == nm \
+                            and ".stack" in norm(d.value):
+                        hit = _reads_backwards(d.value, fn_node, depth + 1)
+                        if hit is not None:
+                            return hit
+        return None
+
+    n_handover = 0
+    for f5 in prog.all_functions():
+        for c in ast.walk(f5.node):
+            if isinstance(c, ast.Call) and callee(c) == "_collect_scopes_from_layers" and c.args:
+                n_handover += 1
+                r5.instances += 1
+                hit = _reads_backwards(c.args[0], f5.node)
+                r5.ob(hit is None, {"layers_handed_to_helper": f5.key, "argument": norm(c.args[0])[:60], "read_backwards": hit is not None})
+                if hit is not None:
+                    res.add("R-C10-5", (f5.key, "producer order", "layers handed over reversed"), f5.loc(c),
+                            f"{f5.key} hands `{norm(hit)[:50]}` to _collect_scopes_from_layers: the stored let layers (outermost first) "
+                            f"arrive innermost first, the helper keeps the order it receives, so with two or more stacked layers beyond the "
+                            f"first an outer layer shadows an inner one")
+    if lh is not None and n_handover == 0:
+        res.unclass("_collect_scopes_from_layers: no call handing stored layers to it was found")
     order = []
     for seg in segs or []:
         k = origin(seg)
@@ -750,6 +784,63 @@ def run(prog: Program) -> Results:
                 res.add("R-C10-7", (fcs.key, "parameter scope receives bindings that are not formals", seg[0]), fcs.loc(at),
                         f"function_call_scope: `{norm(at)[:70]}` ({why}): attributes the caller passes through `...` become names bound in "
                         f"the body and shadow the enclosing let — `let b = 9; in ({{ a, ... }}: {{ x = b; }}) {{ a = 1; b = 2; }}` gives x = 2")
+    # ---------------------------------------------------------------- R-C10-10: the supplied argument is consulted before the default
+    r10 = res.rule("R-C10-10", "a formal takes the supplied argument, else its default: where function_call_scope (or the helper it "
+                   "calls per formal) commits a binding built from the formal's default_value, a lookup of the formal's name among the "
+                   "supplied attributes comes first in that region — the default is the fallback, never the first choice", floor=1)
+
+    def _default_regions():
+        regs = []
+        for lp in ast.walk(fcs.node):
+            if isinstance(lp, ast.For) and any(isinstance(x, ast.Attribute) and x.attr == "default_value" for b in lp.body for x in ast.walk(b)):
+                regs.append((fcs, lp.body, lp))
+        if regs:
+            return regs
+        for c in ast.walk(fcs.node):
+            if isinstance(c, ast.Call) and isinstance(c.func, ast.Name) and c.func.id in prog.funcs:
+                h = prog.funcs[c.func.id]
+                if any(isinstance(x, ast.Attribute) and x.attr == "default_value" for x in ast.walk(h.node)):
+                    regs.append((h, h.node.body, h.node))
+        return regs
+
+    regs10 = _default_regions()
+    if not regs10:
+        res.unclass("function_call_scope: no region that reads a formal's default_value was found")
+    for holder, body10, anchor10 in regs10:
+        dnames = {"default_value"} | {norm(d.targets[0]) for b in body10 for d in ast.walk(b) if isinstance(d, ast.Assign)
+                                      and any(isinstance(x, ast.Attribute) and x.attr == "default_value" for x in ast.walk(d.value))}
+        commits, lookups = [], []
+        for b in body10:
+            for x in ast.walk(b):
+                if isinstance(x, ast.Call) and callee(x) == "Binding":
+                    vals = [k.value for k in x.keywords if k.arg == "value"] + list(x.args[1:2])
+                    if any((isinstance(y, ast.Name) and y.id in dnames) or (isinstance(y, ast.Attribute) and y.attr == "default_value")
+                           for v in vals for y in ast.walk(v)):
+                        commits.append(x)
+                keyed10 = lambda e: ".name" in norm(e)
+                if isinstance(x, ast.Call) and isinstance(x.func, ast.Attribute) and x.func.attr in ("get_binding", "get", "__getitem__") \
+                        and x.args and keyed10(x.args[0]) and norm(x.func.value) not in pscopes:
+                    lookups.append(x)
+                elif isinstance(x, ast.Subscript) and isinstance(x.ctx, ast.Load) and keyed10(x.slice) and norm(x.value) not in pscopes:
+                    lookups.append(x)
+                elif isinstance(x, ast.Compare) and len(x.ops) == 1 and isinstance(x.ops[0], (ast.In, ast.NotIn)) and keyed10(x.left) \
+                        and norm(x.comparators[0]) not in pscopes:
+                    lookups.append(x)
+        if not commits or not lookups:
+            res.unclass(f"{holder.key}: the default commit ({len(commits)}) or the lookup among the supplied attributes ({len(lookups)}) was not recognised")
+            continue
+        pos = lambda n_: (n_.lineno, n_.col_offset)
+        first_lookup = min(lookups, key=pos)
+        res.analysed_functions.add(holder.key)
+        for cm in commits:
+            r10.instances += 1
+            ok = pos(first_lookup) < pos(cm)
+            r10.ob(ok, {"region": holder.key, "default_commit": norm(cm)[:60], "supplied_lookup": norm(first_lookup)[:60]})
+            if not ok:
+                res.add("R-C10-10", (holder.key, "default committed before the supplied argument is looked up"), holder.loc(cm),
+                        f"{holder.key}: `{norm(cm)[:60]}` comes before the first lookup among the supplied attributes "
+                        f"(`{norm(first_lookup)[:50]}`): a formal that has a default and is also supplied resolves to its default — "
+                        f"`({{ a, b ? 2 }}: b) {{ a = 1; b = 7; }}` gives 2")
     # ---------------------------------------------------------------- R-C10-8 (shared with R-C11-1): no aliasing between documents
     from sa.rules.c11 import setter_copy_rule
     r8 = res.rule("R-C10-8", "assigning through a reference installs a copy of the assigned expression: a result is never taken from "
